@@ -126,6 +126,8 @@ type Engine struct {
 	OnQuiescent func()
 	// Extra lets a scenario add its own enabled actions.
 	Extra func() []action
+	// ExtraFirst puts the scenario's actions first in the canonical order (default choice).
+	ExtraFirst bool
 	// Stuck is called when nothing is enabled, nothing is due and the bound has passed.
 	Stuck func()
 	// Done overrides the default termination condition.
@@ -655,7 +657,11 @@ func (e *Engine) enabled() (acts []action, due time.Duration, hasDue bool) {
 		}
 	}
 	if e.Extra != nil {
-		acts = append(acts, e.Extra()...)
+		if e.ExtraFirst {
+			acts = append(e.Extra(), acts...)
+		} else {
+			acts = append(acts, e.Extra()...)
+		}
 	}
 	return acts, due, hasDue
 }
